@@ -7,6 +7,8 @@ def _c10_case(c):
     # K <j> <enc> <k> <hexjson> | S <enc> <hexjson> | R <enc> <hexjson>
     if p[0] == "K":
         return {"script": _json.loads(unhex(p[4])), "k": int(p[3])}
+    if p[0] == "C":
+        return {"script": _json.loads(unhex(p[1])), "conc_delay_us": 2000}
     if p[0] in ("S", "R"):
         return {"script": _json.loads(unhex(p[2]))}
     return {"raw": c}
@@ -21,65 +23,51 @@ Definition vm_bad (d : N) (n : nat) : list N :=
 Definition vm_H (tbl : list (N * nat)) (c : list N) : N :=
   match find (fun e => list_eqb N.eqb c (vm_good (fst e) (snd e))) tbl with Some e => fst e | None => 0 end.
 Definition vm_id (_ : nat) (l : list entry) : list entry := l.
-Section VM.
-Variable H : list N -> N.
-Notation RUNOP := (run_op H vm_id src_inplace src_unlink_first true).
-Notation STEPS := (op_steps H vm_id src_inplace src_unlink_first true).
-Notation HOP := (run_hop H vm_id src_inplace src_unlink_first true).
-Fixpoint vm_crash_call (s : st) (ops : list op) (j : nat) : st :=
-  match ops with
-  | [] => HOP s (Crashed SaveIndex 0)
-  | o :: r => let n := length (STEPS s o) in
-              if Nat.leb j n then HOP s (Crashed o j) else vm_crash_call (RUNOP s o) r (j - n)
-  end.
-Definition vm_hist (hist : list (list op * option nat)) : st :=
-  fold_left (fun s c => match snd c with
-                        | None => run H vm_id src_inplace src_unlink_first true (fst c) s
-                        | Some j => vm_crash_call s (fst c) j
-                        end) hist init.
-Definition vm_view (hist : list (list op * option nat)) (fin : list op) (j : nat) (ids : list N) (expect : list entry) :=
-  let s := vm_hist hist in
-  let fsk := crash_seq H vm_id src_inplace src_unlink_first true s fin j in
+Definition vm_in (l : list N) (d : N) : bool := existsb (N.eqb d) l.
+Definition vm_view (H : list N -> N) (mts bads : list N) (hist : list acall) (fin : api) (j : nat)
+                   (ids : list N) (expect : list entry) :=
+  let mt := vm_in mts in
+  let dec := fun d => negb (vm_in bads d) in
+  let s := runa H vm_id src_inplace src_unlink_first true mt dec hist init in
+  let fsk := crash_seq H vm_id src_inplace src_unlink_first true s (expand H mt dec s fin) j in
   (layout_okb fsk,
    map (fun d => match files fsk (FBlob d) with
                  | Some f => Some (length (fcontent f), fro f) | None => None end) ids,
    match read_index fsk with
    | Some l => Some (length l, forallb (fun e => existsb (entry_eqb e) l) expect)
    | None => None
-   end).
-End VM.
+   end,
+   load_okb mt dec fsk).
 """
 
 
 def _c10_vm_call(toks, blobs):
     n = {b[0]: b[1] for b in blobs}
-    man = {b[0]: b[2] for b in blobs}
     k = toks[0]
-    if k == "push" and man[int(toks[1])] == 2:
-        # undecodable manifest: stored, unindexable, removed again (same translation as ml/c10_main.ml)
-        d = int(toks[1]); return ["Push %d (vm_good %d %d) false" % (d, d, n[d]), "Delete %d" % d]
-    if k == "tag" and man[int(toks[1])] == 2:
-        return ["Untag %d" % (900000000 + int(toks[1]))]
     if k == "push":
-        d = int(toks[1]); return ["Push %d (vm_good %d %d) %s" % (d, d, n[d], "true" if man[d] == 1 else "false")]
+        d = int(toks[1]); return "APush %d (vm_good %d %d)" % (d, d, n[d])
     if k == "pushbad":
-        d = int(toks[1]); return ["Push %d (vm_bad %d %d) %s" % (d, d, n[d], "true" if man[d] == 1 else "false")]
+        d = int(toks[1]); return "APush %d (vm_bad %d %d)" % (d, d, n[d])
     if k == "tag":
-        return ["Tag %s %s" % (toks[1], toks[2])]
+        return "ATag %s %s" % (toks[1], toks[2])
     if k == "untag":
-        return ["Untag %s" % toks[1]]
+        return "AUntag %s" % toks[1]
+    if k == "tagdigest":
+        return "ATagDigest %s" % toks[1]
+    if k == "untagdigest":
+        return "AUntagDigest %s" % toks[1]
     if k == "delete":
-        return ["Delete %s" % toks[1]]
+        return "ADelete %s []" % toks[1]
     if k == "saveindex":
-        return ["SaveIndex"]
+        return "ASaveIndex"
     if k == "dgc":
-        return ["Delete %s" % t for t in toks[1:]]
+        return "ADelete %s [%s]" % (toks[1], "; ".join(toks[2:]))
     if k == "gc":
         swept = [int(x) for x in toks[1:]]
         live = [b[0] for b in blobs if b[0] not in swept]
-        return ["Forget [%s]" % "; ".join(str(x) for x in live)] + ["Delete %d" % x for x in swept]
+        return "AGC [%s] [%s]" % ("; ".join(str(x) for x in live), "; ".join(str(x) for x in swept))
     if k == "reopen":
-        return []
+        return "AReopen"
     raise ValueError(k)
 
 
@@ -94,9 +82,9 @@ def _c10_vm_goal(case, out):
     for it in [x for x in f["hist"].split(",") if x]:
         t = it.split(":")
         if t[0] == "crash":
-            hist.append("([%s], Some %s%%nat)" % ("; ".join(_c10_vm_call(t[2:], blobs)), t[1]))
+            hist.append("ACrashed (%s) %s%%nat" % (_c10_vm_call(t[2:], blobs), t[1]))
         else:
-            hist.append("([%s], None)" % "; ".join(_c10_vm_call(t, blobs)))
+            hist.append("ADone (%s)" % _c10_vm_call(t, blobs))
     fin = _c10_vm_call(f["final"].split(":"), blobs)
     toks = out.split(" ")[1:]
     layout = "true" if "F:L=ok" in toks else "false"
@@ -119,8 +107,10 @@ def _c10_vm_goal(case, out):
         idx, exp = "None", ""
     ids = [b[0] for b in blobs]
     tbl = "; ".join("(%d, %d%%nat)" % (b[0], b[1]) for b in blobs)
-    return ("vm_view (vm_H [%s]) [%s] [%s] %d%%nat [%s] [%s]\n  = (%s, [%s], %s)"
-            % (tbl, "; ".join(hist), "; ".join(fin), j, "; ".join(str(i) for i in ids), exp, layout,
+    mts = "; ".join(str(b[0]) for b in blobs if b[2] >= 1)
+    bads = "; ".join(str(b[0]) for b in blobs if b[2] == 2)
+    return ("vm_view (vm_H [%s]) [%s] [%s] [%s] (%s) %d%%nat [%s] [%s]\n  = (%s, [%s], %s, true)"
+            % (tbl, mts, bads, "; ".join(hist), fin, j, "; ".join(str(i) for i in ids), exp, layout,
                "; ".join(view.get(i, "None") for i in ids), idx))
 
 
@@ -166,8 +156,9 @@ def _c10_vm_sample(d, tier, coq, build, want=150):
 
 CONFIG = {
     "properties_file": "Properties/C10.v",
-    "proof_files": ["Base/Prelude.v", "Proofs/OciCrash.v"],
-    "model_files": ["Generated/GC10.v", "Model/OciCrash.v", "Model/OciCrashSpec.v"],
+    "proof_files": ["Base/Prelude.v", "Proofs/OciCrash.v", "Proofs/OciGC.v", "Proofs/OciCrashGC.v", "Proofs/OciCrashConc.v", "Proofs/OciCrashOff.v", "Proofs/OciCrashSync.v"],
+    "model_files": ["Generated/GC10.v", "Model/OciCrash.v", "Model/OciCrashSpec.v", "Model/OciCrashConc.v"],
+    "also_translate": ["C09"],
     "extract": "XC10.v",
     "ml_main": "c10_main.ml",
     "harness": "c10",
@@ -179,22 +170,24 @@ CONFIG = {
         "kernel file-system semantics are modelled, not verified: rename(2) is atomic, a completed system call's effect survives the death of the process (page cache), a process killed at the entry of a system call has not executed it; power loss / fsync is outside the property",
         "store configuration: AutoSaveIndex is a parameter of the model (autosave): every positive theorem is stated for the default true; for false the property is refuted (C10_crash_safe_refuted_autosave_off) and recorded as known finding autosave-off-index-dangling; scripts with AutoSaveIndex off are generated and compared with the model, the oracle judges them against the tag map of the last SaveIndex. AutoGC on or off (also on the plain universe). Delete with AutoGC and GC are modelled as one call that performs a LIST of primitive operations in a row (plain deletes; Forget = drop digest references outside the live set + saveIndex): which nodes a cascade or a sweep visits, and in which order, is C09's subject -- C10_crash_safe_composite holds for every list, the harness reads the list off the recorded run (unlink order); C10_gc_crash_safe states GC with bare removals under the explicit hypothesis 'no swept blob is live or carries a reference name'. Go's map order makes some cascades nondeterministic: a kill run whose order differs from the recorded one is judged by the oracle only (counted cascade-order-differs-unjudged, floor 10 %)",
         "ground truth of scripts with GC / AutoGC: the blob set, tag map and index entry set before and after the interrupted call are observed on disk (killed before its first system call / completed run); on the universe with referrers an independent reference (mark phase of GC, survival of everything a tagged manifest reaches, tags of other blobs untouched) judges the completed call (gc-removed-live, gc-kept-garbage, gc-changed-tags, cascade-removed-tag, cascade-removed-live); plain scripts use the generator's simulator (blobs, tags, index entries incl. digest-only ones)",
-        "coverage floors (harness exits non-zero = layer R failure): kills, earlier crashes, GC/init/reopen/cascade finals, cuts inside multi-write pushes, AutoSaveIndex-off scripts; more than 5 % of the injected kills missing their window or more than 10 % unjudged kill cases fail the run",
+        "concurrency model (Model/OciCrashConc.v): temporaries are thread-private (unique random names; C10_no_in_place_write), Storage.Push of a target that appeared meanwhile is the same rename (identical verified bytes), the resolver maps are updated atomically (their mutexes), saveIndex = snapshot + write + rename under indexLock; Delete and GC take the write lock and are sequential. C10_conc_tags_origin proves (and the stream's oracle checks) that every reference on disk was there before or is set by a concurrent Tag. The two models are cross-checked on every generated final call (a call scheduled alone to completion in the concurrent model must leave the same directory and resolver as the sequential operation: CONC-MODEL-DIFFERS otherwise), and C10_conc_alone_refines proves that agreement for every call and state",
+        "coverage floors (harness exits non-zero = layer R failure): concurrent kills, concurrent batches run to completion, kills, earlier crashes, GC/init/reopen/cascade finals, cuts inside multi-write pushes, AutoSaveIndex-off scripts; more than 5 % of the injected kills missing their window or more than 10 % unjudged kill cases fail the run",
         "digest-and-size verification (content.NewVerifyReader, SHA-256) is the Section variable H: a content c matches the name d iff H c = d; no property of H is assumed",
         "encoding/json of index.json / oci-layout is abstracted: a file holds the marshalled entry list as one write unit and parses back to it; Go's map iteration order in saveIndex is the Section variable shuffle with hypothesis In e (shuffle c l) <-> In e l",
-        "descriptors: Tag/Delete are also generated with a digest+size-only descriptor (MediaType \"\") of the same blob; the model identifies a blob by its digest (after fix 89e7351 so does Store.delete). A descriptor whose media type LIES about the content (a layer tagged as a manifest) is a caller inconsistency outside the quantifier; since db2ff94 Tag refuses it. References are never digest strings",
-        "manifests that do not decode are generated (blob kind badmanifest): the model has no notion of decodability; the driver translates Push of such content into the composite [Push bytes; Delete] (stored, unindexable, removed again) and Tag into a refused call -- this translation is part of the trusted driver, the composite theorem covers the resulting step lists; 'oci.New succeeds' includes decoding every indexed manifest only in the oracle (real oci.New), not in the Coq predicate index_ok",
+        "descriptors: Tag/Delete are also generated with a digest+size-only descriptor (MediaType \"\") of the same blob; the model identifies a blob by its digest (so does Store.delete since its repair). A descriptor whose media type LIES about the content (a layer tagged as a manifest) is a caller inconsistency outside the quantifier; Tag refuses it. References that are digest strings are modelled (TagDig / ATagDigest / AUntagDigest) and generated",
+        "media type and decodability of content are Section variables mt, dec of the API layer (Model expand/api_res/runa, extracted and run by the driver): a manifest-typed blob that does not decode is stored, unindexable and removed again by Push, refused by Tag; C10_api_reopen_loads proves that loadIndex (parse, blob files exist, every manifest-typed entry decodes: load_okb) succeeds at every cut; graph.IndexAll's recursion into successors during loading is not modelled (it only reads; undecodable successors are skipped by the code)",
+        "Store.delete also enters a dangling MANIFEST successor by digest when the resolver does not hold it; the model has no successor relation (C09's subject; the bridge Proofs/OciCrashGC.v is at the level of node sets and names, not of index contents). In the generated universes this needs the leftover of a Push killed between blob rename and index rename that is later reached through a referrer after a reopen: such scripts are abandoned and counted, not judged",
         "write(2) is modelled as all-or-nothing at system-call granularity (the process is killed at system-call entries); C10_no_in_place_write shows that only temporaries are ever written, so torn writes cannot reach a file a reader looks at",
         "oci.New on an existing layout is modelled as: no change on disk, tag resolver := loadIndex(index.json) (Model reopen/load); graph.IndexAll during loading is not modelled (it only reads)",
         "crash points = entries of the file-system system calls (strace trace set in harness/crashkit10/trace.go) of the thread running the operation; other system calls (futex, mmap, signals) do not change the directory",
-        "initialisation: the property speaks of an initialised store; taken into scope as 'initialisation is restartable' for ONE crash during the first oci.New on an empty directory (C10_init_restartable, kill at every system call); repeated crashes during initialisation are not modelled. oci.New on an existing layout is kill-tested at every system call (operation 'reopen'): it only reads",
+        "initialisation: the property speaks of an initialised store; taken into scope as 'initialisation is restartable' for any number of interrupted attempts (C10_init_restartable_many; kill at every system call of the first attempt and of attempts on what one to three interrupted attempts left). oci.New on an existing layout is kill-tested at every system call (operation 'reopen'): it only reads",
         "blob names are pairs (algorithm, digest) encoded as 1000*algorithm + n (0 = sha256, 1 = sha512); sha384 is not generated",
     ],
     "trusted_extra": [
         "strace 6.1 fault injection (-e inject=<syscall>:signal=KILL:when=<n>) and its trace output; the child runs with GOMAXPROCS=1 and the main goroutine locked to the first thread; the actual kill point is re-read from the trace of the killed run",
     ],
     "level_text": "Coq theorem over every history of completed Push/Tag/Untag/Delete/SaveIndex operations, every interrupted operation and every cut of its file-system micro-step list (invariant proof, any verification function, any map iteration order): layout valid, every blob file complete and matching its name, index.json parses and names only existing blobs, index.json / tag mapping is the one before or the one after, no completed effect lost; the same after any number of earlier crashes each followed by oci.New on what was left (tag resolver reloaded from index.json, leftover temporaries in place); completed histories refine the sequential specification of the API; no file a reader looks at is ever written in place (write granularity irrelevant); the pre-repair in-place index write and the swapped Delete order are refuted by witnesses. Delete with AutoGC and GC: every cut of a call made of any list of primitives is a crash state of one primitive between two quiescent states of the call (C10_crash_safe_composite), after any earlier crashes; a crash during the first oci.New is repaired by the next one (C10_init_restartable). The orders the proofs depend on (temp+rename writes of index.json and oci-layout, index before unlink, GC: save before sweep) are re-read from the Go source on every run (translator kind callseq) and configure the model; the thorough tier re-evaluates a sample of kill cases inside Coq with vm_compute. The model is tied to the code by killing a real child process at every system call of the interrupted operation (strace inject) and comparing the directory with the model after the same number of micro-steps, by comparing the recorded system-call script with the model's micro-step list, and by an independent oracle (oci.New + raw readers + generator ground truth)",
-    "level_note": "theorems: full for AutoSaveIndex=true and Push/Tag/Untag/Delete/SaveIndex incl. histories with earlier crashes; Delete-with-AutoGC and GC at the level 'any list of primitives' plus C10_gc_crash_safe / C10_cascade_* under explicit hypotheses that the harness checks on every recorded call (what a cascade or sweep visits is C09). Oracle-only clauses: 'the directory can be opened again' beyond parsing (decoding of every indexed manifest: real oci.New); 'effects of completed operations are present' after EARLIER CRASHES (theorem C10_completed_effects covers crash-free histories; after crashes only Recoverable relative to the model's own states + the oracle's ground truth of blobs, tags and index entries); AutoSaveIndex=false is refuted and a known finding; kernel semantics (atomic rename, no loss at process death) modelled, not verified; JSON encoding and SHA-2 abstracted; callseq items tie source ORDER, not control flow (a changed condition is seen by the correspondence, not by T)",
+    "level_note": "theorems: full for AutoSaveIndex=true over histories of API calls (expand: media type / decodability decide the primitives) and of primitives, with any number of earlier crashes: Recoverable at every cut, loadIndex succeeds incl. manifest decoding (C10_api_reopen_loads), completed effects survive and nothing is invented across crashes, initialisation restartable after any number of interrupted attempts; Delete-with-AutoGC and GC at the level 'any list of primitives' plus C10_gc_crash_safe / C10_cascade_* whose hypotheses are derived from C09's exact sets (C10_cascade_of_gc_model, C10_gc_of_gc_model; names_agree is the only link between the two models) and checked by the harness on every recorded call. Oracle-only: graph.IndexAll's recursion on load; the index contents of Store.delete's re-entry of a dangling manifest by digest (scripts reaching it are abandoned); descriptor fields of index entries (media type, annotations). AutoSaveIndex=false: the full statement is refuted (known finding) and C10_autosave_off_partial proves what remains (valid layout, complete blobs, a parsing index.json equal to the one before or after, blobs between) for all histories and cuts, checked by the oracle on the NoAutoSave scripts; kernel semantics (atomic rename, no loss at process death) modelled, not verified; JSON encoding and SHA-2 abstracted; concurrent callers (Push/Tag/Untag/SaveIndex under the read lock) have their own model (Model/OciCrashConc.v: thread-private temporaries, atomic resolver updates, saveIndex as the indexLock critical section) with C10_conc_crash_safe over all schedules, C10_conc_quiescent_synced (when all calls of every batch have returned index.json is exactly the index of the resolver: what indexLock is for; refuted without the lock) and C10_conc_phases_crash_safe (sequential phases with crashes, completed batches and batches killed at any prefix of any schedule alternate freely; the sequential invariant and 'index.json = index of the resolver' hold after each, incl. after every reopen: the oracle compares the reopened store's resolver with index.json, reopen-resolver-differs), C10_conc_completed_push (a Push that returned has stored its blob and, for a new manifest, its index entry, whatever ran concurrently), tied to the code by C10_source_locks (layer T/P) and by an oracle-only stress stream (goroutines killed at arbitrary moments, or run to completion under a 30 s watchdog and then resolver (Tags/Resolve) == index.json; the schedule is not observable, so killed batches are not compared with the model) and by a model-compared stream (layer R, case kind Q): batches of single calls whose behaviour is decided by the state before the batch run to completion, and the directory they leave (index.json entries, blobs) must be the final directory of SOME schedule of the extracted concurrent model -- the model runner explores all interleavings (QREACH no otherwise; floor conc-model-compared); half of them are killed at an arbitrary moment instead and the directory left must be that of some configuration some schedule passes through (floor conc-model-compared-killed); callseq/callguards tie source ORDER and enclosing CONDITIONS of the effects and the lock discipline (C10_source_locks: read lock held for the whole of Push/Tag/Untag/SaveIndex, write lock for Delete/GC, indexLock around snapshot+write in saveIndex; callseq with mark_defer), nothing else of the control flow",
     "technique": "machine-checked proof in Coq (invariant over file-system micro-steps, every cut of every operation after every history) + model/implementation correspondence by real SIGKILL at every system-call boundary (strace) + independent oracle",
     "explanation": "theorems over all histories/operations/cuts about the micro-step model of content/oci (Store.Push/Tag/Untag/Delete/SaveIndex, Storage.Push/ingest/Delete, writeIndexFile); each run records the system calls of scripted operations on a real oci.Store in a child process, kills the child before every system call of the final operation, and compares directory, script and results with the extracted model; the oracle reopens the killed directory with oci.New and checks blobs, index entries, tag mapping (before/after) and completed effects against the generator's ground truth",
 }
